@@ -907,6 +907,16 @@ def run_order(repo, chk):
             chk.instance("E4-site", "%s #%d %s [%s] %s" % (f.key, per_fn[f.key], label, kind, text), nontrivial=(status != "src"))
             continue
         key = (f.key.split("#")[0], kind)
+        if key not in BENIGN and var is not None:
+            # a set-ordered value that the function asserts to hold exactly one element has no order to depend on,
+            # however the element is taken out (index, next(iter()), one-element unpacking, pop)
+            try:
+                one = guard_assert_len1(f, var)
+            except Exception:
+                one = False
+            if one:
+                chk.instance("E4-site", "%s #%d sink [%s] %s (%s): the variable is asserted to have exactly one element - order immaterial" % (f.key, per_fn[f.key], kind, text, var))
+                continue
         if key in BENIGN:
             reason, guard = BENIGN[key]
             gname, gvar = guard if guard is not None else ("none", None)
